@@ -9,6 +9,15 @@
   `wrapVerbose` mirrors `wrap_verbose.inner_verbose` line by line (after the D16 repair:
   try/finally, restore skipped when there was no console handler); `wrapVerbosePinned` is the
   pinned code (no `finally`, `logging._levelToName[None]`), kept for the `…_current` witnesses.
+
+  What the model reads of the call: its verbosity argument and whether the body (the
+  `@sift_logger`-decorated sift, which formats `args[0].shape` eagerly whatever the level — so
+  `sift(X=x)` raises IndexError in EVERY logger state — and then runs the numerics) returns or raises.
+  The body's outcome is an INPUT of the model: that it does not depend on the logger state is not
+  provable here (instance check, bitwise).  A verbosity that is not a level name of `logging`
+  (`verbose='debug'`, `verbose=10`, …; outside the documented values) is the operation `callBad`:
+  `set_level` raises (TypeError / AttributeError / ValueError from `getattr(logging, v)` /
+  `handler.setLevel`) when a console handler exists and is never evaluated when none exists.
 -/
 import EmdModel.Protocol
 
@@ -38,6 +47,7 @@ inductive CallResult
   | returned          -- the body's value comes back
   | raisedOwn         -- the body's own exception propagates
   | raisedKeyError    -- the wrapper itself fails (`logging._levelToName[None]`)
+  | raisedWrapper     -- the wrapper's `set_level(verbose)` rejects an undocumented verbosity; the body never runs
   deriving DecidableEq, Repr
 
 inductive Op
@@ -46,11 +56,18 @@ inductive Op
   | disable
   | enable
   | call (verbose : Option Level) (o : Outcome)
+  | callBad (o : Outcome)       -- a decorated call with a verbosity that is not a `logging` level name
   deriving DecidableEq, Repr
 
 def Op.isCall : Op → Bool
   | .call _ _ => true
+  | .callBad _ => true
   | _ => false
+
+/-- the call uses one of the documented verbosity values (None or a level name) -/
+def Op.documented : Op → Bool
+  | .callBad _ => false
+  | _ => true
 
 /-- `set_level`: loops over the handlers and sets the one named 'console'; no handler, no effect -/
 def setLevel (s : LogState) (l : Level) : LogState :=
@@ -93,6 +110,16 @@ def wrapVerbose (s : LogState) (v : Option Level) (o : Outcome) : LogState × Ca
       | none => s1
     (s2, { result := ownResult o, during := s1.console })
 
+/-- `inner_verbose` with a verbosity `v` that is not a level name (not None):
+      current = get_level(); set_level(v)     -- for the handler named 'console': getattr(logging, v) / setLevel raise;
+                                               -- no such handler: the loop body is never entered
+      try: out = func(...)
+      finally: if current is not None: set_level(name(current)) -/
+def wrapVerboseBad (s : LogState) (o : Outcome) : LogState × CallObs :=
+  match s.console with
+  | some c => (s, { result := .raisedWrapper, during := some c })   -- raised before the `try`: nothing was changed
+  | none => (s, { result := ownResult o, during := none })          -- accepted silently; nothing to restore
+
 /-- the pinned `inner_verbose`: the restore is skipped when the body raises and indexes
     `logging._levelToName[None]` when there was no console handler -/
 def wrapVerbosePinned (s : LogState) (v : Option Level) (o : Outcome) : LogState × CallObs :=
@@ -116,6 +143,7 @@ def stepWith (w : LogState → Option Level → Outcome → LogState × CallObs)
   | .disable => ({ s with disabled := true }, none)
   | .enable => ({ s with disabled := false }, none)
   | .call v o => let r := w s v o; (r.1, some r.2)
+  | .callBad o => let r := wrapVerboseBad s o; (r.1, some r.2)
 
 def step : LogState → Op → LogState × Option CallObs := stepWith wrapVerbose
 def stepPinned : LogState → Op → LogState × Option CallObs := stepWith wrapVerbosePinned
@@ -164,6 +192,8 @@ def parseOpTok? (t : String) : Option Op :=
   | ["en"] => some .enable
   | ["c", v, "r"] => (parseOptLevel? v).map (.call · .returns)
   | ["c", v, "x"] => (parseOptLevel? v).map (.call · .raises)
+  | ["cb", "r"] => some (.callBad .returns)
+  | ["cb", "x"] => some (.callBad .raises)
   | _ => none
 
 def fmtLevel : Option Level → String
@@ -175,6 +205,7 @@ def fmtResult : Option CallObs → String
   | some { result := .returned, .. } => "1"
   | some { result := .raisedOwn, .. } => "2"
   | some { result := .raisedKeyError, .. } => "3"
+  | some { result := .raisedWrapper, .. } => "4"
 
 def handle (o : Protocol.Op) : Option String :=
   match o.name with
@@ -198,7 +229,9 @@ def handle (o : Protocol.Op) : Option String :=
       -- during a call: is the INFO record 'STARTED: …' / the DEBUG record 'Input data size' shown?
       let vis (r : Level) := tr.map fun x => match x.2.1 with
         | none => "0"
-        | some c => Protocol.fmtBool (shown { console := none, disabled := x.2.2 } c.during r)
+        | some c =>
+          if c.result = .raisedWrapper then "0"      -- rejected before the body: no record of the call at all
+          else Protocol.fmtBool (shown { console := none, disabled := x.2.2 } c.during r)
       let sp := " ".intercalate
       return s!"ok | {sp levels} | {sp results} | {sp (vis .info)} | {sp (vis .debug)}"
   | _ => none
